@@ -122,30 +122,37 @@ theorem C19_buffer (capsAt : Nat → Option Caps) (names : List (Bytes × Nat))
 
 /-- **C19 for a line of a line-oriented search** (`Replacer::replace_all`, non-multi-line branch): for the
 range `[rs, re)` of `haystack`, `rs ≤ re ≤ |haystack|`, the buffer is the replace-all — reference template
-grammar, every match, unmatched text intact — of the haystack cut at the line's content end `hay`,
-followed by the line's own terminator bytes, untouched. No guard on the line: terminated or not. -/
+grammar, every match, unmatched text intact — of the line's content `line` (the range without its terminator,
+searched as a haystack of its own, which is how the searcher judged the line), followed by the line's own
+terminator bytes, untouched. No guard on the line: terminated or not, first in the buffer or not. -/
 theorem C19_line (t : LineTerm) (capsAtOf : Bytes → Nat → Option Caps) (names : List (Bytes × Nat))
     (haystack : Bytes) (rs re : Nat) (tmpl : Bytes)
     (hrange : rs ≤ re ∧ re ≤ haystack.length)
     (hs : ∀ hay, Sane (capsAtOf hay) hay.length)
     (hok : braceOk tmpl = true) (henv : ∀ hay c, EnvOk (envOf hay names c))
-    (hay : Bytes) (hhay : hay = haystack.take (trimLineTerminator t haystack 0 re)) :
+    (line : Bytes) (hline : line = slice haystack rs (trimLineTerminator t haystack rs re)) :
     (replaceAllLine t capsAtOf names haystack rs re tmpl).dst =
-      replaceAllSpec hay (fun c => expand (envOf hay names c) tmpl)
-        (allMatches (capsAtOf hay) hay.length rs) rs hay.length
-      ++ slice haystack (trimLineTerminator t haystack 0 re) re := by
+      replaceAllSpec line (fun c => expand (envOf line names c) tmpl)
+        (allMatches (capsAtOf line) line.length 0) 0 line.length
+      ++ slice haystack (trimLineTerminator t haystack rs re) re := by
   unfold replaceAllLine
   simp only
-  rw [← hhay]
+  rw [← hline]
   congr 1
-  apply C19_buffer (capsAtOf hay) names hay rs re _ tmpl (hs hay) _ hok (henv hay)
-  rcases trim_cases t haystack re hrange.2 with hlt | ⟨heq, hns⟩
+  apply C19_buffer (capsAtOf line) names line 0 (re - rs) _ tmpl (hs line) _ hok (henv line)
+  have hlen : line.length = min (trimLineTerminator t haystack rs re) haystack.length - rs := by
+    rw [hline]; simp [slice]
+  rcases trim_cases t haystack rs re with ⟨hlt, hrs⟩ | ⟨heq, hns⟩
   · left
-    rw [hhay, List.length_take]; omega
+    omega
   · right
-    rw [heq] at hhay
-    subst hhay
-    refine ⟨by rw [List.length_take]; omega, atEnd_of_unterminated t haystack rs re hrange hns⟩
+    have hl : line.length = re - rs := by omega
+    refine ⟨hl, ?_⟩
+    have hline' : line = (haystack.take re).drop rs := by rw [hline, heq]; rfl
+    have h := atEnd_of_unterminated t line 0 line.length ⟨by omega, by omega⟩
+      (by rw [List.take_length, hline']; exact hns)
+    rw [List.take_length] at h
+    rw [← hl]; exact h
 
 /-- Lines without a match are never altered: with no match the buffer is the range itself. -/
 theorem unmatched_text_intact (capsAt : Nat → Option Caps) (names : List (Bytes × Nat))
@@ -186,5 +193,70 @@ example :
     funext c; exact interpolate_no_dollar _ [88] (by decide)
   rw [hexp]
   decide
+
+/-! ## 3. Lines without a match, context lines -/
+
+/-- With no match from `rs` on, `replace_with_captures_in_context` copies the range and records no expansion. -/
+theorem no_match_state (capsAt : Nat → Option Caps) (names : List (Bytes × Nat))
+    (bytes : Bytes) (rs re : Nat) (atEnd : Bool) (tmpl : Bytes) (hs : Sane capsAt bytes.length)
+    (hnone : allMatches capsAt bytes.length rs = []) :
+    replaceWithCapturesInContext capsAt names bytes rs re atEnd tmpl =
+      ⟨rs, slice bytes rs (min bytes.length re), []⟩ := by
+  rw [replace_unfold]
+  simp only
+  rw [iterGo_eq_fold, collect_eq_allMatches hs rs, hnone]
+  simp [foldUntil]
+
+/-- **Lines without a match are never altered** (printer level): if the line `[rs, re)` has no match — in its
+content, searched as a haystack of its own — the only record written for it is the line itself, completed
+with the configured terminator if it has none, whatever `--only-matching` / per-match say. This is the case of
+every matched line of an inverted search. -/
+theorem C19_unmatched_line (t : LineTerm) (only perMatch : Bool) (capsAtOf : Bytes → Nat → Option Caps)
+    (names : List (Bytes × Nat)) (haystack : Bytes) (rs re : Nat) (tmpl : Bytes)
+    (hs : ∀ hay, Sane (capsAtOf hay) hay.length)
+    (hnone : allMatches (capsAtOf (slice haystack rs (trimLineTerminator t haystack rs re)))
+      (slice haystack rs (trimLineTerminator t haystack rs re)).length 0 = []) :
+    printRecords t only perMatch (slice haystack rs re) (replaceAllLine t capsAtOf names haystack rs re tmpl) =
+      [⟨none, completeLine t (slice haystack rs re)⟩] := by
+  unfold replaceAllLine
+  simp only
+  rw [no_match_state _ names _ 0 (re - rs) _ tmpl (hs _) hnone]
+  simp [printRecords]
+
+/-- Every line the printer is handed, by either callback: a context line of a non-inverted search is written as it
+is; any line without a match (see `C19_unmatched_line`) is written as it is. -/
+theorem C19_no_match_unaltered (t : LineTerm) (only perMatch invert : Bool) (kind : LineKind)
+    (capsAtOf : Bytes → Nat → Option Caps) (names : List (Bytes × Nat))
+    (haystack : Bytes) (rs re : Nat) (tmpl : Bytes)
+    (hs : ∀ hay, Sane (capsAtOf hay) hay.length)
+    (hM : kind = .matched →
+      allMatches (capsAtOf (slice haystack rs (trimLineTerminator t haystack rs re)))
+        (slice haystack rs (trimLineTerminator t haystack rs re)).length 0 = [])
+    (hC : kind = .context → invert = true →
+      allMatches (capsAtOf (slice (slice haystack rs re) 0
+          (trimLineTerminator t (slice haystack rs re) 0 (slice haystack rs re).length)))
+        (slice (slice haystack rs re) 0
+          (trimLineTerminator t (slice haystack rs re) 0 (slice haystack rs re).length)).length 0 = []) :
+    sinkLine t only perMatch invert kind capsAtOf names haystack rs re tmpl =
+      [⟨none, completeLine t (slice haystack rs re)⟩] := by
+  unfold sinkLine
+  cases kind with
+  | matched =>
+    simp only
+    exact C19_unmatched_line t only perMatch capsAtOf names haystack rs re tmpl hs (hM rfl)
+  | context =>
+    cases invert with
+    | false => simp
+    | true =>
+      simp only [↓reduceIte]
+      have h := C19_unmatched_line t only perMatch capsAtOf names (slice haystack rs re) 0
+        (slice haystack rs re).length tmpl hs (hC rfl rfl)
+      have hself : ∀ b : Bytes, slice b 0 b.length = b := by intro b; simp [slice]
+      rw [hself (slice haystack rs re)] at h
+      exact h
+
+/-- Non-vacuity: a matcher that never matches satisfies the hypotheses (the line `b\n`, no match). -/
+example : sinkLine (.byte 10) true false true .context (fun _ _ => none) [] [98, 10] 0 2 [88] =
+    [⟨none, [98, 10]⟩] := by decide
 
 end RgVerif.Props.C19
